@@ -1,6 +1,7 @@
 """Seeded random daemon histories on the qsim engine (DESIGN.md 2.6): messages with unique
 tokens and recipients, outcome assignments K/Z/D/garbage per attempt, signals, clock steps,
 clean restarts and crashes with disk variants.  Used by C02, C03, C04, C14, C15, C16, C10, C18."""
+import json
 import os
 import signal
 
@@ -199,6 +200,26 @@ class History:
             return b"Ztemporary trouble\n"
         return b"D" + (p.fail_texts or fail_text)(rng)
 
+    def _fault_hit_a_pipe(self):
+        """did the injected fault of this history land on a read of one of qmail-send's pipes (cleaner,
+        spawners) rather than on a queue file?  Call indices are per process and drift with the number of
+        pipe reads, so a read-fault sweep occasionally hits one; the daemon then gives up cleanly by design."""
+        try:
+            with open(self.sim.logfile, "rb") as f:
+                for line in f:
+                    if b'"inj":"fail"' not in line and b'"inj": "fail"' not in line:
+                        continue
+                    try:
+                        e = json.loads(line)
+                    except ValueError:
+                        continue
+                    if e.get("g") == "qmail-send" and e.get("c") in ("read", "write") and not (e.get("path") or "").startswith("queue/"):
+                        self.res.counters.inc("faults_that_hit_a_daemon_pipe")
+                        return True
+        except OSError:
+            pass
+        return False
+
     def restart(self):
         self.gen_start = len(self.sim.events)
         self.sim.start_daemons(plan=(self.plan or "") if self.prof.plan_persist else "")
@@ -250,7 +271,7 @@ class History:
                         self.res.counters.inc("startup_refusals_under_fault")
                         self.restart()
                         continue
-                    if self.plan and self.prof.plan_persist and os.WIFEXITED(st) and os.WEXITSTATUS(st) == 0:
+                    if self.plan and os.WIFEXITED(st) and os.WEXITSTATUS(st) == 0 and (self.prof.plan_persist or self._fault_hit_a_pipe()):
                         # an injected fault on one of the daemon's pipes ("lost qmail-clean connection", "lost spawn
                         # connection"): it dies cleanly by design; supervise restarts it
                         sim.kill_daemons(who=("clean",))
